@@ -40,6 +40,18 @@ def canon(obj):
     return json.dumps(obj, sort_keys=True, separators=(',', ':'))
 
 
+def canon_unordered(project):
+    """Canonical form that ignores the order of apps, models and fields
+    (neither signatures nor the schema oracle depend on it)."""
+    p = copy.deepcopy(project)
+    for a in p['apps']:
+        for m in a['models']:
+            m['fields'] = sorted(m['fields'], key=lambda f: f['name'])
+        a['models'] = sorted(a['models'], key=lambda m: m['name'])
+    p['apps'] = sorted(p['apps'], key=lambda a: a['label'])
+    return canon(p)
+
+
 def clone(obj):
     return copy.deepcopy(obj)
 
